@@ -40,7 +40,7 @@ TEXT = {
           "and a differential stream feeding followers through the real InsertChain.",
   "design_ref": "§3 C16",
   "note": "Verification itself (verifier/*, vm) is an oracle here. Known findings F7c (panics on empty / non-linking-by-height batches), "
-          "F7d (rollback before verification), F7e (stale-parent momentum silently dropped, reported as success) are open.",
+          "F7d (rollback before verification) are open; F7e (stale-parent momentum silently dropped and reported as success) was fixed in 9a5065f.",
   "technique": "Lean 4 proof (induction over the batch) + AST facts + differential correspondence on real nodes + model-free monitors",
  },
 }
